@@ -31,7 +31,7 @@ PROP = dict(
     ],
     spec=True,
     timeout=1800,
-    rule="case = a real UDP ASSOCIATE over a real control connection (TCP from 127.0.0.1/2/3, or net.Pipe = no TCP peer address) declaring nothing / 0.0.0.0 / :: / a domain / "
+    rule="case = a real UDP ASSOCIATE over a real control connection (TCP from 127.0.0.1/2/3; TCP over IPv6 from ::1; TCP through a dual-stack [::] listener = IPv4-mapped peer; or net.Pipe = no TCP peer address; [::1]:4000 among the declared addresses) declaring nothing / 0.0.0.0 / :: / a domain / "
          "a sender's address (exact, other port, IPv4-mapped), then datagrams (valid or invalid SOCKS5 UDP header) from UDP sockets bound to 127.0.0.1, 127.0.0.2, 127.0.0.3 and a second socket on 127.0.0.1 "
          "to the real relay socket read by the real ReadLoop, with WriteToClient probes in between; every ordered pair of first senders x control kind x declared/undeclared, plus random histories of 1-4 (8%: 20-50) datagrams; stalled-mesh cases: the relay back-end is held (RelayUDPDatagram blocks) while 3-8 (10%: 70-90) datagrams from the owner and from foreign hosts arrive, then released — "
          "every relayed (destination, payload) must be exactly one the owner sent, each once, in order; declared addresses include port 0; "
